@@ -1329,8 +1329,87 @@ class C03(OutcomeCheck):
     rnd_family = rnd("c03r", "AF", nq=100, nt=1000, nthreads=(2, 3), maxops=3)
 
 
+
+class C04:
+    level = "proof"
+    design_ref = "DESIGN.md section 8, C04"
+    technique = "Coq proof (vector-clock lattice, exactness of the race test at each access, clock transfer lemmas of every synchronisation primitive) + whole-run correspondence + independent declarative happens-before oracle on every executed trace"
+    level_text = ("Proved: the clock order/join/ahead functions decide the pointwise lattice (VVFacts); a cell/atomic access panics iff some recorded conflicting access is not below the thread's clock "
+                  "(C04_cell_* theorems); every synchronisation primitive transfers the releaser's clock to the acquirer (SyncFacts). Not proved: the global statement over whole executions. "
+                  "On the implementation: for every explored iteration of the F-race core an independent vector-clock construction of happens-before (two readings bracketing the spec) decides whether "
+                  "the executed accesses race; a race under the strongest reading that loom does not report, or a report without a race under the weakest reading, is a violation.")
+    level_note = "partial: per-execution exactness is oracle-checked; 'if some execution races it is reported' additionally relies on exploration completeness (C01/C02)"
+    assumptions = ["the oracle reconstructs reads-from from values (every store of the family writes a distinct value)",
+                   "happens-before follows C11 with C++20 release sequences; where the documentation leaves room (SC fence order, unpark before park, reader-reader hand-over) only definite violations are reported"]
+
+    def run(self, ctx):
+        import hb
+        res = {"coverage": {}, "violations": [], "broken": [], "known": []}
+        known = Known(ctx.root, ctx.pid)
+        det = gen.fam_race_core(ctx.tier)
+        rnd_ = gen.family_random(ctx.seed, 120 if ctx.tier == "quick" else 1200, list("UAMHF"), nthreads=(2, 3), maxops=3, prefix="c04r")
+        nexec = nrace = nambig = 0
+        outcomes = {}
+        nprog = nit = 0
+        for name, lines in (("core", det), ("random", rnd_)):
+            fam = FamilyRun(ctx, lines, name, cap=5000)
+            st = fam.stats()
+            nprog += st["programs"]
+            nit += st["iterations"]
+            for k, v in st["outcomes"].items():
+                outcomes[k] = outcomes.get(k, 0) + v
+            mm = fam.whole_run_mismatches()
+            if mm:
+                m = mm[0]
+                res["broken"].append(f"correspondence L vs implementation ({name}): `{m.get('prog')}` iteration {m.get('iteration')}: impl `{str(m.get('impl'))[:150]}` model `{str(m.get('model'))[:150]}`")
+            if name == "random":
+                # the random family has reused values: the oracle needs distinct values, use it for correspondence only
+                continue
+            for i, p in sorted(fam.parsed.items()):
+                run = p["run"] or ""
+                failed = run.startswith("panic")
+                caus = failed and " causality " in (" " + run + " ")
+                for n_, it in enumerate(p["iterations"]):
+                    last = n_ == len(p["iterations"]) - 1
+                    if failed and last and not caus:
+                        continue
+                    nexec += 1
+                    rs, rw = hb.analyse_iteration(lines[i], it, caus and last)
+                    reported = caus and last
+                    dev = None
+                    if rs and not reported:
+                        dev = "missed-race"
+                    elif reported and not rw:
+                        dev = "false-race-report"
+                    elif rw != rs:
+                        nambig += 1
+                    if reported or rs:
+                        nrace += 1
+                    if dev:
+                        d = f"{dev}:iteration-shape " + key_of_logs(it["ops"])
+                        if known.match(lines[i], dev):
+                            pass
+                        else:
+                            res["violations"].append({"prog": lines[i], "deviation": dev, "iteration": n_ + 1, "trace": key_of_logs(it["ops"])})
+                        break
+        res["known"] = known.lines()
+        res["coverage"] = {
+            "programs": nprog, "iterations": nit, "executions_checked_by_hb_oracle": nexec, "executions_with_a_race": nrace,
+            "executions_where_the_two_readings_differ": nambig, "disagreements_checked": len(res["broken"]),
+            "evaluations": nexec, "distinct_nontrivial": len({norm_prog(l) for l in det + rnd_}),
+            "rule": "F-race core: message passing through atomics (all orderings x fences, with and without waiting), release sequences, two hops, mutex, rwlock, channel, park/unpark, spawn/join, SC fences, unsync_load/with_mut; every explored execution analysed; + seeded random programs for correspondence",
+            "samples": sample_programs(det), "outcomes": outcomes,
+        }
+        ctx.cleanup()
+        return res
+
+    def replay(self, ctx, path):
+        print(open(path).read())
+        return 0
+
+
 HOOK_COMMITS = ["8f72140"]
 FIX_COMMITS = ["4a97b3f", "e9415b5", "1d4f62f", "36c0d26", "7942235", "13413be", "756d098"]
 NOT_CLAIMED = {}
 REGISTRY = {"C14": C14(), "C01": C01(), "C05": C05(), "C07": C07(), "C08": C08(), "C09": C09(),
-            "C10": C10(), "C11": C11(), "C18": C18(), "C12": C12(), "C15": C15(), "C19": C19(), "C13": C13(), "C06": C06(), "C16": C16(), "C02": C02(), "C03": C03()}
+            "C10": C10(), "C11": C11(), "C18": C18(), "C12": C12(), "C15": C15(), "C19": C19(), "C13": C13(), "C06": C06(), "C16": C16(), "C02": C02(), "C03": C03(), "C04": C04()}
